@@ -145,11 +145,15 @@ type MapStore struct {
 	// Alias: keep and hand out the very slices the library passed in (no defensive copies), as simple in-memory
 	// stores do; Snapshot always copies, so the oracle sees what the store held at that moment.
 	Alias bool
-	mu    sync.Mutex
-	M     map[string]dtls.Session
-	Sets  int
-	Dels  int
-	Gets  int
+	// Gate: when non-nil, Set blocks on it before storing (a slow store: a database write, a remote cache); the
+	// harness closes it to let the call finish. Waiting counts the callers blocked there.
+	Gate    chan struct{}
+	Waiting int
+	mu      sync.Mutex
+	M       map[string]dtls.Session
+	Sets    int
+	Dels    int
+	Gets    int
 }
 
 func NewMapStore() *MapStore { return &MapStore{M: map[string]dtls.Session{}} }
@@ -192,6 +196,13 @@ func (s *AliasStore) Len() int {
 
 func (s *MapStore) Set(key []byte, v dtls.Session) error {
 	s.mu.Lock()
+	if g := s.Gate; g != nil {
+		s.Waiting++
+		s.mu.Unlock()
+		<-g
+		s.mu.Lock()
+		s.Waiting--
+	}
 	defer s.mu.Unlock()
 	s.Sets++
 	if s.Alias {
@@ -232,6 +243,20 @@ func (s *MapStore) Snapshot() map[string]dtls.Session {
 		out[k] = dtls.Session{ID: append([]byte(nil), v.ID...), Secret: append([]byte(nil), v.Secret...)}
 	}
 	return out
+}
+
+// WaitingSets reports how many Set calls are blocked at the gate.
+func (s *MapStore) WaitingSets() int {
+	s.mu.Lock()
+	defer s.mu.Unlock()
+	return s.Waiting
+}
+
+// SetGate installs (or, with nil, removes) the gate.
+func (s *MapStore) SetGate(g chan struct{}) {
+	s.mu.Lock()
+	s.Gate = g
+	s.mu.Unlock()
 }
 
 func (s *MapStore) Len() int {
